@@ -149,7 +149,7 @@ class GenericInterfaceSymbol(RoutineSymbol):
         # first positional argument.
         return type(self)(self.name, self.routines, datatype=self.datatype,
                           visibility=self.visibility,
-                          interface=self.interface)
+                          interface=self.interface.copy())
 
 
 # For Sphinx AutoAPI documentation generation
